@@ -1205,7 +1205,8 @@ class PSFPhotometry(ModelImageMixin):
                 y_bounds = np.array([i for i in y_bounds if i is not None])
                 dx = x_bounds - row[xcolname]
                 dy = y_bounds - row[ycolname]
-                if np.any(dx == 0) or np.any(dy == 0):
+                if (np.any(np.isclose(dx, 0.0, rtol=0.0, atol=1e-8))
+                        or np.any(np.isclose(dy, 0.0, rtol=0.0, atol=1e-8))):
                     flags[index] += 32
 
         return flags
